@@ -275,23 +275,32 @@ func (fm *vFakeMaster) serve(c net.Conn) {
 				pk = fm.sc.serve(call.file, call.offset)
 			}
 			seq := byte(1)
-			for _, ev := range pk {
+			for i, ev := range pk {
+				vhEnvWait(evPacket + i)
 				if fmWrite(c, seq, append([]byte{0}, ev...)) != nil {
 					return
 				}
+				vhEnvDone(evPacket + i)
 				seq++
 				if !fm.sc.ahead {
 					time.Sleep(2 * time.Millisecond)
 				}
 			}
+			if fm.sc.end != endIdle {
+				vhEnvWait(evEnd)
+			}
 			switch fm.sc.end {
 			case endEOF:
 				fmWrite(c, seq, []byte{0xfe, 0, 0, 2, 0})
+				vhEnvDone(evEnd)
 			case endERR:
 				b := []byte{0xff, byte(fm.sc.errCode), byte(fm.sc.errCode >> 8), '#', 'H', 'Y', '0', '0', '0'}
 				fmWrite(c, seq, append(b, fm.sc.errMsg...))
+				vhEnvDone(evEnd)
 			case endLost:
 				time.Sleep(5 * time.Millisecond)
+				c.Close()
+				vhEnvDone(evEnd)
 				return // closes the socket
 			}
 			// keep the connection open until the client goes away
